@@ -83,6 +83,8 @@ class ValMap:
         if c == 1:
             if r < 1000:
                 return 's%d' % r
+            if r == 2000:
+                return None
             return ('t', r - 1000)
         u, i = divmod(r, 100)
         n = u * self.unit
@@ -115,6 +117,8 @@ class ValMap:
 
     def to_model(self, py):
         t = type(py)
+        if py is None:
+            return OPAQUE + 2000
         if t is int and not isinstance(py, bool):
             return py if -OPAQUE < py < OPAQUE else -3
         try:
